@@ -13001,6 +13001,16 @@ func (l *Lowerer) lowerArrayLengthCall(args []parser.Expr, target *[]ir.Statemen
 	if err != nil {
 		return 0, err
 	}
+	// WGSL: the argument is a pointer to a runtime-sized array.
+	pointee := l.resolveExprTypeInner(arg)
+	if ptr, ok := pointee.(ir.PointerType); ok && int(ptr.Base) < len(l.module.Types) {
+		pointee = l.module.Types[ptr.Base].Inner
+	}
+	if pointee != nil {
+		if arr, isArr := pointee.(ir.ArrayType); !isArr || arr.Size.Constant != nil {
+			return 0, fmt.Errorf("arrayLength requires a pointer to a runtime-sized array")
+		}
+	}
 	return l.addExpression(ir.Expression{
 		Kind: ir.ExprArrayLength{Array: arg},
 	}), nil
